@@ -155,12 +155,12 @@ func (e EnumSchema[S, T]) asType(d any) (S, T, error) {
 	var unserializedDefaultValue T
 	unserializedType := reflect.TypeOf(unserializedDefaultValue)
 
-	if !dValue.IsValid() || !dValue.CanConvert(serializedType) {
+	if !dValue.IsValid() || !kindsAgree(dValue.Kind(), serializedType.Kind()) || !dValue.CanConvert(serializedType) {
 		return serializedDefaultValue, unserializedDefaultValue, &ConstraintError{
 			Message: fmt.Sprintf("%T is not a valid data type for an %T schema.", d, serializedDefaultValue),
 		}
 	}
-	if !dValue.CanConvert(unserializedType) {
+	if !kindsAgree(dValue.Kind(), unserializedType.Kind()) || !dValue.CanConvert(unserializedType) {
 		return serializedDefaultValue, unserializedDefaultValue, &ConstraintError{
 			Message: fmt.Sprintf("%T is not a valid data type for an %T schema's unserialized type %T", d, e, unserializedType),
 		}
